@@ -15,7 +15,8 @@ RULE = (
     "0-5 attributes incl. value-less flags, values over a reserved-character-rich alphabet and arbitrary Unicode "
     "(upper-case percent-escapes in gff3/gff2 styles), 0-3 extra columns, '.' coordinates, empty attribute column. "
     "Non-trivial = at least 2 attributes and (a non-default dialect entry or a percent-escape or an extra column); "
-    "distinct by hash of the case."
+    "distinct by hash of the case. (fuzz_strict) an atheris campaign decodes bytes into a text-model record through "
+    "FuzzedDataProvider and applies the same oracle; counted conservatively by final corpus units of >= 8 bytes."
 )
 ASSUMPTIONS = [
     "decoded values have no leading/trailing whitespace and, in unquoted styles, neither begin nor end with a double quote (DESIGN section 3)",
@@ -164,4 +165,7 @@ class SpacesLeg(object):
         return None
 
 
-LEGS = [StrictLeg(), SpacesLeg()]
+from gfv.fuzzleg import FuzzLeg  # noqa: E402
+
+LEGS = [StrictLeg(), SpacesLeg(),
+        FuzzLeg("fuzz_strict", "c07", {"quick": (1, 15000), "thorough": (4, 400000)}, lambda b: len(b) >= 8, None, max_len=128)]
